@@ -40,7 +40,7 @@ func (check) Cases(tier string) int {
 }
 
 func (check) Rule() string {
-	return "one data tree per case (top-level dictionary, keys a,b,c repeated at every depth, depth 3 (1/8: 5), lists up to 3 (1/8: 6) wide, leaves from gen.Prims plus Go ints/uints/floats of all widths, nil, {}, []; every case adds 9 freshly drawn numbers of random Go types to the leaf pool (float32/float64 from random bit patterns, short decimal fractions, integral and scaled normal values; integers over the whole range of their width) and gives 1/3 of the all-leaf lists and 1/6 of the all-leaf dictionaries one random element type so that []T, [N]T, *[N]T, map[string]T are frequent; 3/4 of the cases insist on nested containers) given (1) in ~13 Go representations (map[string]interface{}, map[interface{}]interface{}, reflect.StructOf structs with renaming tags / inline struct and map groups / ignored fields / typed nil fields, map[string]T, []T, [N]T, *[N]T, map[string]map, []map, pointers to maps, structs and primitives, pointers to pointers, *Config built from another representation, a Child handle, maps holding *Config or Config values, a per-node random mixture; in the first 3 cases of a run also a top-level Config passed by value), with and without PathSep; the structs of the per-node carriers are written under a random tag name (config, json, cfg, yaml) selected by the StructTag option of the call, and a third of their fields carry a second tag of another name that names, ignores or inlines the field differently; (2) unpacked into map[string]interface{} and fed back (canonical equality and VerifWalk structure equality, wiring of every node); (3) in ~4 random partial flattenings into dotted keys with PathSep(\".\") (each dictionary edge folded or nested, sub-trees divided at any depth between several dotted keys and a nested rest, dotted keys inside nested maps, complete lists spelled by numeric positions) each carried by 1-2 of: map, interface-keyed map, typed map, struct tags, mixture; (4) in 2 map-carried duplicate constructions (a: one leaf dotted and nested / two partial spellings of its path; b: dotted key below a primitive defined flat, nested or dotted; c: dotted list position plus the list, flat or nested) embedded in the tree at depth 0-2, each built 40 times with permuted insertion order, and 1 deterministic struct-carried duplicate (same tag twice, inline struct/map vs named field, dotted tag vs nested field, dotted tag below a scalar field; both declaration orders); (5) as one run-time struct type (nested, by value/pointer) whose fields carry 2-3 tag sets at once, each field independently named (tree key, other key, fresh, dotted) / inlined / ignored under each tag set, normalised 3-5 times in a row while switching the StructTag option (default tag included) and the form (value, pointer, inside a map, inside []interface{}, element of []T and of map[string]T; NewFrom or Merge into an empty config): every call must give the tree its own tag set describes; a quarter of the dictionary valued fields hold an existing Config (named or inlined); (6) with one dictionary S built once as ONE Go value (root *Config, child handle, Config by value, *struct, *map, map, interface-keyed map, struct) and used under 2-3 keys of the tree and twice in a list, some places extended by dotted sibling keys into S's namespace (also below a dictionary of S) or by a second struct field of the same name, carried by a struct in both declaration orders or a map and normalised 2-3 times in a row. Everywhere: inline groups of struct carriers also arrive as *Config / Config by value / interface{} holding *Config; every representation and flattening is normalised a second time from the same Go value (same data, same stored structure); every *Config inside an input is compared with its content, parent and path before the call; flattenings divide dictionaries with nil placeholders (a setting given in one part is nil in the other) and lists by position (some positions dotted, nil placeholders or a shorter list in the nested part); struct and mixed carriers are run in both declaration orders. Non-trivial = tree with >= 2 container levels and >= 3 primitive leaves; distinct = distinct tree."
+	return "one data tree per case (top-level dictionary, keys a,b,c repeated at every depth, depth 3 (1/8: 5), lists up to 3 (1/8: 6) wide, leaves from gen.Prims plus Go ints/uints/floats of all widths, nil, {}, []; every case adds 9 freshly drawn numbers of random Go types to the leaf pool (float32/float64 from random bit patterns, short decimal fractions, integral and scaled normal values; integers over the whole range of their width) and gives 1/3 of the all-leaf lists and 1/6 of the all-leaf dictionaries one random element type so that []T, [N]T, *[N]T, map[string]T are frequent; 3/4 of the cases insist on nested containers) given (1) in ~13 Go representations (map[string]interface{}, map[interface{}]interface{}, reflect.StructOf structs with renaming tags / inline struct and map groups / ignored fields / typed nil fields, map[string]T, []T, [N]T, *[N]T, map[string]map, []map, pointers to maps, structs and primitives, pointers to pointers, *Config built from another representation, a Child handle, maps holding *Config or Config values, a per-node random mixture; in the first 3 cases of a run also a top-level Config passed by value), with and without PathSep; the structs of the per-node carriers are written under a random tag name (config, json, cfg, yaml) selected by the StructTag option of the call, and a third of their fields carry a second tag of another name that names, ignores or inlines the field differently; (2) unpacked into map[string]interface{} and fed back (canonical equality and VerifWalk structure equality, wiring of every node); (3) in ~4 random partial flattenings into dotted keys with PathSep(\".\") (each dictionary edge folded or nested, sub-trees divided at any depth between several dotted keys and a nested rest, dotted keys inside nested maps, complete lists spelled by numeric positions) each carried by 1-2 of: map, interface-keyed map, typed map, struct tags, mixture; (4) in 2 map-carried duplicate constructions (a: one leaf dotted and nested / two partial spellings of its path; b: dotted key below a primitive defined flat, nested or dotted; c: dotted list position plus the list, flat or nested) embedded in the tree at depth 0-2, each built 40 times with permuted insertion order, and 1 deterministic struct-carried duplicate (same tag twice, inline struct/map vs named field, dotted tag vs nested field, dotted tag below a scalar field; both declaration orders); (5) as one run-time struct type (nested, by value/pointer) whose fields carry 2-3 tag sets at once, each field independently named (tree key, other key, fresh, dotted) / inlined / ignored under each tag set, normalised 3-5 times in a row while switching the StructTag option (default tag included) and the form (value, pointer, inside a map, inside []interface{}, element of []T and of map[string]T; NewFrom or Merge into an empty config): every call must give the tree its own tag set describes; a quarter of the dictionary valued fields hold an existing Config (named or inlined); (6) with one dictionary S built once as ONE Go value (root *Config, child handle, Config by value, *struct, *map, map, interface-keyed map, struct) and used under 2-3 keys of the tree and twice in a list, some places extended by dotted sibling keys into S's namespace (also below a dictionary of S) or by a second struct field of the same name, carried by a struct in both declaration orders or a map and normalised 2-3 times in a row. Everywhere: inline groups of struct carriers also arrive as *Config / Config by value / interface{} holding *Config; every representation and flattening is normalised a second time from the same Go value (same data, same stored structure); every *Config inside an input is compared with its content, parent and path before the call; flattenings divide dictionaries with nil placeholders (a setting given in one part is nil in the other) and lists by position (some positions dotted, nil placeholders or a shorter list in the nested part); struct and mixed carriers are run in both declaration orders. A fifth of the cases use the key pool a,b,c,\"\" (the empty name: dotted spellings beginning or ending with the separator; never as a struct tag). Lists of the tree are also handed in as the top-level value ([]interface{}, typed, *[]interface{}, [N]interface{}, list *Config; unpacked into []interface{} and fed back). Struct carriers get, 1 in 16, an inline field holding nil (nil interface, nil map, nil *struct, nil *Config, nil *map) and lists are, 1 in 12, carried by a struct whose only field is an inlined list Config. Every 60th case adds (7) one wide tree of 300..40000 primitives (log-uniform; 7 shapes) read in generic, typed, interface-keyed, Config-valued, top-level and completely dotted form, with the elements copied while growing lists (hook grow) bounded linearly, and every 60th case (8) one chain of 20..30000 dictionaries (log-uniform) spelled nested, as one dotted key and in two mixtures: same outcome (accepted with the same data, or refused) for every spelling; the first 3 cases of a run read nil pointers (to map, struct, Config, interface) as the top-level value. Non-trivial = tree with >= 2 container levels and >= 3 primitive leaves; distinct = distinct tree."
 }
 
 func (check) Assumptions() []string {
@@ -51,6 +51,11 @@ func (check) Assumptions() []string {
 		"duplicates use two non-nil primitive values; a nil definition and two objects with disjoint keys are not duplicates and are not generated as such; the error is accepted if Reason() is or wraps ErrDuplicateKey, wording and the blamed key are not compared",
 		"map iteration order is not controlled: each map-carried duplicate construction is rebuilt 40 times with permuted insertion order and judged on the set of outcome classes seen (order dependence itself is C09)",
 		"VarExp off: strings containing $ { } . , are plain data",
+		"EnableNumKeys is not used and names never look like numbers (C20); dotted positions are used up to MaxIdx only (the wide dotted form passes MaxIdx explicitly)",
+		"whether a tree is too deep to be accepted is not judged (a limit is the library's decision), only that every spelling of the same chain gets the same decision",
+		"cost: only the number of list elements copied while growing lists is bounded (8 per element of the input + 64 per list + 256), measured where the order of insertion is fixed (not for dotted positions carried by a map)",
+		"a nil pointer or nil interface is nil: as a field tagged inline it contributes nothing, as the top-level value it gives the empty config (like nil and a nil map)",
+		"not pinned, not generated: which of nil / {} / [] is stored when several spellings meet (C09 order dependence of empty lists), an empty object or nil map next to a primitive (duplicate or not), one name defined as object and as list, names of an existing Config that contain the separator, values outside the data model (complex, uintptr, func, chan, regexp), text front-ends, unpacking into the wrong container kind",
 		"a nil placeholder next to a value is an untyped nil or a nil pointer (a nil map or slice may pass for an empty object and is not used there); an inlined Config contributes its named settings (a list part is not generated); a nil *Config is not inlined",
 		"inputs are data: the same Go value normalises to the same config in every call and at every place; configs handed in keep content, Parent() and Path()",
 		"numbers: any finite value of any Go number type except NaN, infinities and negative zero (not pinned down); a float32 stands for the real number it holds exactly",
@@ -202,17 +207,18 @@ func (s *sp) shuffle(r *rand.Rand) {
 // ---------------------------------------------------------------- flattening
 
 type flattener struct {
-	r       *rand.Rand
-	dotted  int // dotted keys produced
-	split   int // a sub-tree given by dotted keys AND a nested rest
-	inner   int // dotted keys inside nested maps
-	listpos int // lists spelled by numeric positions
-	maxSeg  int
-	multi   int // >= 2 dotted keys with the same first segment in one map
-	deep    int // a dictionary below the folded edge is divided between dotted and nested part
-	phDict  int // nil placeholders: a setting given in one part of a divided dictionary is nil in the other
-	partial int // lists divided: some positions dotted, the nested list holds nil placeholders there
-	ph      map[*model.Node]bool
+	r        *rand.Rand
+	dotted   int // dotted keys produced
+	split    int // a sub-tree given by dotted keys AND a nested rest
+	inner    int // dotted keys inside nested maps
+	listpos  int // lists spelled by numeric positions
+	maxSeg   int
+	multi    int // >= 2 dotted keys with the same first segment in one map
+	deep     int // a dictionary below the folded edge is divided between dotted and nested part
+	phDict   int // nil placeholders: a setting given in one part of a divided dictionary is nil in the other
+	partial  int // lists divided: some positions dotted, the nested list holds nil placeholders there
+	trailing int // dotted keys ending in the separator (last path element is the empty name)
+	ph       map[*model.Node]bool
 }
 
 func (f *flattener) placeholderNode() *model.Node {
@@ -348,6 +354,9 @@ func (f *flattener) divide(c *model.Node) (fold, keep *model.Node) {
 }
 
 func (f *flattener) note(key string, segs, depth int) {
+	if segs > 1 && strings.HasSuffix(key, ".") {
+		f.trailing++
+	}
 	if segs > 1 {
 		f.dotted++
 		if depth > 0 {
@@ -424,7 +433,13 @@ type fieldSpec struct {
 	decoy    string // a complete tag of another name on the same field (`json:"zz,ignore"`); never selected by the call
 }
 
-var typedNils = []reflect.Type{nil, reflect.TypeOf((*string)(nil)), reflect.TypeOf(map[string]interface{}(nil)), reflect.TypeOf([]interface{}(nil))}
+var typedNils = []reflect.Type{nil, reflect.TypeOf((*string)(nil)), reflect.TypeOf(map[string]interface{}(nil)), reflect.TypeOf([]interface{}(nil)),
+	// 4..6: nil objects for fields tagged inline
+	reflect.TypeOf((*struct {
+		X int `config:"x"`
+	})(nil)), reflect.TypeOf((*ucfg.Config)(nil)), reflect.TypeOf((*map[string]interface{})(nil))}
+
+var nilInlineName = map[int]string{0: "interface", 2: "map", 4: "*struct", 5: "*Config", 6: "*map"}
 
 func mkStruct(fs []fieldSpec, ptr bool) interface{} { return mkStructTag(fs, ptr, "config") }
 
@@ -473,17 +488,20 @@ func ptrTo(v interface{}) interface{} {
 }
 
 type builder struct {
-	r           *rand.Rand
-	pathSep     bool // nested *Config values are built with PathSep(".")
-	noInline    bool
-	noInlineCfg bool   // no inline fields carried by an existing Config
-	tag         string // struct tag name the structs are written with ("" = the default `config`, no option needed)
-	decoys      bool   // fields may carry a second tag of another name that says something else
-	err         error  // first error building a nested *Config
-	cfgs        []cfgSnap
-	inlineCfg   int // inline fields carried by an existing Config
-	evals       int
-	parts       map[string]bool
+	r             *rand.Rand
+	pathSep       bool // nested *Config values are built with PathSep(".")
+	noInline      bool
+	noInlineCfg   bool   // no inline fields carried by an existing Config
+	noNilInline   bool   // no inline fields holding nil
+	tag           string // struct tag name the structs are written with ("" = the default `config`, no option needed)
+	decoys        bool   // fields may carry a second tag of another name that says something else
+	err           error  // first error building a nested *Config
+	cfgs          []cfgSnap
+	inlineCfg     int // inline fields carried by an existing Config
+	inlineListCfg int // lists carried by a struct whose only field is an inlined list Config
+	nilInline     int // inline fields holding a nil pointer or interface
+	evals         int
+	parts         map[string]bool
 }
 
 func newBuilder(r *rand.Rand, pathSep bool) *builder {
@@ -618,6 +636,25 @@ func allKind(l []*sp, kind int) bool {
 }
 
 func (b *builder) list(s *sp, st int) interface{} {
+	if (st == stStruct || st == stMixed) && !b.noInlineCfg && !b.noInline && len(s.list) > 0 && b.r.Intn(12) == 0 {
+		// the list arrives as an existing Config inlined into a struct that
+		// has nothing else: the struct stands for the list
+		var opts []ucfg.Option
+		if b.pathSep {
+			opts = append(opts, ucfg.PathSep("."))
+		}
+		opts = append(opts, b.tagOpts()...)
+		b.evals++
+		if c, err := ucfg.NewFrom(b.list(s, stMap), opts...); err == nil {
+			b.parts["inline-list-Config"] = true
+			b.inlineListCfg++
+			var v interface{} = c
+			if b.r.Intn(3) == 0 {
+				v = *c
+			}
+			return mkStructTag([]fieldSpec{{tag: ",inline", val: v, concrete: b.r.Intn(2) == 0}}, b.r.Intn(3) == 0, b.tagName())
+		}
+	}
 	if st == stTyped || (st == stMixed && b.r.Intn(2) == 0) {
 		if t, ok := sameLeafType(s.list); ok {
 			n := len(s.list)
@@ -870,6 +907,17 @@ func (b *builder) structOf(s *sp, child int, ptr bool) interface{} {
 			fs = append(fs, mk(e))
 		}
 	}
+	if !b.noInline && !b.noNilInline && b.r.Intn(16) == 0 {
+		// an inline part that is nil contributes nothing (nil == empty object)
+		kind := []int{0, 2, 4, 5, 6}[b.r.Intn(5)]
+		b.parts["inline-nil-"+nilInlineName[kind]] = true
+		if kind != 2 {
+			b.nilInline++ // a nil map is an empty map for Go as well
+		}
+		nf := fieldSpec{tag: []string{",inline", ",squash"}[b.r.Intn(2)], typedNil: kind}
+		pos := b.r.Intn(len(fs) + 1)
+		fs = append(fs[:pos], append([]fieldSpec{nf}, fs[pos:]...)...)
+	}
 	if !b.noInline && b.r.Intn(6) == 0 {
 		// a field excluded by its tag must leave no trace
 		b.parts["ignored-field"] = true
@@ -893,15 +941,17 @@ type kase struct {
 	refName string
 	o       gen.TreeOpts
 	// set around a call whose input comes from a builder
-	snaps     []cfgSnap // the *Config values inside the input
-	inlineCfg bool      // the input has inline fields carried by an existing Config
+	snaps         []cfgSnap // the *Config values inside the input
+	inlineCfg     bool      // the input has inline fields carried by an existing Config
+	inlineListCfg bool      // ... carried by an existing Config that is a list
+	nilInline     bool      // the input has inline fields holding a nil pointer or interface
 }
 
 // with runs f while the observation knows what the builder put into the input.
 func (k *kase) with(b *builder, f func()) {
-	k.snaps, k.inlineCfg = b.cfgs, b.inlineCfg > 0
+	k.snaps, k.inlineCfg, k.inlineListCfg, k.nilInline = b.cfgs, b.inlineCfg > 0, b.inlineListCfg > 0, b.nilInline > 0
 	f()
-	k.snaps, k.inlineCfg = nil, false
+	k.snaps, k.inlineCfg, k.inlineListCfg, k.nilInline = nil, false, false, false
 }
 
 // onlyMissing: the observed data hold nothing the tree does not hold, but
@@ -1101,6 +1151,10 @@ func (k *kase) checkRep(name string, src interface{}, pathSep bool, extra ...ucf
 		return
 	}
 	if err != nil {
+		if k.nilInline && reasonShort(err) == "ErrTypeMismatch" {
+			k.res.Violate("inline-nil-field:rejected", "the input has struct fields tagged inline that hold a nil pointer or nil interface, and NewFrom returned %v; %s", err, what)
+			return
+		}
 		k.res.Violate("newfrom-error:"+name, "NewFrom returned %v (%s); %s", err, reasonShort(err), what)
 		return
 	}
@@ -1113,6 +1167,10 @@ func (k *kase) checkRep(name string, src interface{}, pathSep bool, extra ...ucf
 	if got != k.want {
 		if typ, where, found := numberChanged(k.t, x1, ""); found {
 			k.res.Violate("number-not-preserved:"+typ, "a number of the input comes back as another number: %s; unpack gives %s, the tree is %s; %s", where, got, k.want, what)
+			return
+		}
+		if k.inlineListCfg && onlyMissing(k.t, x1) {
+			k.res.Violate("inline-config-field:list-elements-missing", "the input has lists carried by a struct whose inline field holds an existing list Config, and settings are missing: unpack gives %s, the tree is %s; %s", got, k.want, what)
 			return
 		}
 		if k.inlineCfg && onlyMissing(k.t, x1) {
@@ -1252,6 +1310,10 @@ func (k *kase) representations() {
 		if b.parts["struct"] {
 			k.res.SetAdd("struct_tag_option", "StructTag("+b.tag+")")
 		}
+		if b.err != nil && b.nilInline > 0 && reasonShort(b.err) == "ErrTypeMismatch" {
+			k.res.Violate("inline-nil-field:rejected", "the input has struct fields tagged inline that hold a nil pointer or nil interface, and building a nested *Config from it failed: %v; tree %s", b.err, t)
+			continue
+		}
 		if b.err != nil {
 			k.res.Violate("newfrom-error:config-part", "building a nested *Config failed: %v; tree %s", b.err, t)
 			continue
@@ -1368,6 +1430,10 @@ func (k *kase) flatOne(f *flattener, s *sp, st int, shape, note string) {
 	if b.tag != "" {
 		what += "; structs tagged `" + b.tag + "`, call with StructTag(" + b.tag + ")"
 	}
+	if b.err != nil && b.nilInline > 0 && reasonShort(b.err) == "ErrTypeMismatch" {
+		k.res.Violate("inline-nil-field:rejected", "the input has struct fields tagged inline that hold a nil pointer or nil interface, and building a nested *Config from it failed: %v; %s", b.err, what)
+		return
+	}
 	if b.err != nil {
 		k.res.Violate("dotted-newfrom-error:config-part:"+reasonShort(b.err), "building a nested *Config from dotted keys failed: %v; %s", b.err, what)
 		return
@@ -1387,6 +1453,10 @@ func (k *kase) flatOne(f *flattener, s *sp, st int, shape, note string) {
 		sfx = ":list-position"
 	}
 	if err != nil {
+		if b.nilInline > 0 && reasonShort(err) == "ErrTypeMismatch" {
+			k.res.Violate("inline-nil-field:rejected", "the input has struct fields tagged inline that hold a nil pointer or nil interface, and NewFrom returned %v; %s", err, what)
+			return
+		}
 		k.res.Violate("dotted-newfrom-error:"+reasonShort(err)+sfx, "NewFrom with PathSep returned %v; %s", err, what)
 		return
 	}
@@ -1403,10 +1473,17 @@ func (k *kase) flatOne(f *flattener, s *sp, st int, shape, note string) {
 	if f.phDict > 0 {
 		k.res.Ev("flattenings_with_nil_placeholders", 1)
 	}
+	if f.trailing > 0 {
+		k.res.Ev("flattenings_with_keys_ending_in_the_separator", 1)
+	}
 	got := model.CanonIfc(x)
 	if got != k.want {
 		if typ, where, found := numberChanged(k.t, x, ""); found {
 			k.res.Violate("number-not-preserved:"+typ, "a number of the input comes back as another number: %s; unpack gives %s, the tree is %s; %s", where, got, k.want, what)
+			return
+		}
+		if b.inlineListCfg > 0 && onlyMissing(k.t, x) {
+			k.res.Violate("inline-config-field:list-elements-missing", "the input has lists carried by a struct whose inline field holds an existing list Config, and settings are missing: unpack gives %s, the tree is %s; %s", got, k.want, what)
 			return
 		}
 		if b.inlineCfg > 0 && onlyMissing(k.t, x) {
@@ -1794,6 +1871,17 @@ func (check) Run(seed int64, tier string, idx int, verbose bool) harness.Result 
 	}
 
 	k.representations()
+	k.topLevelLists()
+	if idx < 3 {
+		k.typedNilTop()
+	}
+	wideDesc, deepDesc := "", ""
+	if idx%60 == 7 {
+		wideDesc = k.wide()
+	}
+	if idx%60 == 37 {
+		deepDesc = k.deep()
+	}
 	views := k.tagViews()
 	shared := k.sharedValues()
 	flat := k.flattenings(4)
@@ -1804,7 +1892,7 @@ func (check) Run(seed int64, tier string, idx int, verbose bool) harness.Result 
 	dups = append(dups, k.structDuplicate(structDups[r.Intn(len(structDups))]))
 
 	if idx < 2 || verbose {
-		s := map[string]interface{}{"tree": t.String(), "canonical": k.want, "flattenings": flat, "duplicates": dups, "multi_tag_struct": views, "shared_value": shared}
+		s := map[string]interface{}{"tree": t.String(), "canonical": k.want, "flattenings": flat, "duplicates": dups, "multi_tag_struct": views, "shared_value": shared, "wide": wideDesc, "deep": deepDesc}
 		if idx < 2 {
 			res.Sample = s
 		}
